@@ -135,13 +135,23 @@ Section Hist.
                         chain t (c_s (w_c w)) (c_off_content (w_c w)) (c_at (w_c w)) cur
     else cur = [] /\ c_at (w_c w) = c_psize (w_c w).
 
+  (* the part of the invariant that does not speak about the open packet *)
+  Definition HIb (w : world) (K : list pk) : Prop :=
+    len_ok w /\ w_pcargs w = user /\ (exists n, c_psize (w_c w) = 8 * n) /\ fits (c_psize (w_c w)) /\
+    or_ok (w_or w) /\
+    Forall2 pkt_ok (pkts (obs (w_log w))) K /\
+    map k_disc K = snaps 0 (obs (w_log w)) /\ c_disc (w_c w) = ndo (obs (w_log w)) /\
+    map k_seq K = map seqn (seq 0 (List.length K)) /\ c_seq (w_c w) = seqn (List.length K).
+  Lemma HI_base w K cur : HI w K cur -> HIb w K.
+  Proof. unfold HI, HIb. tauto. Qed.
+
   (* changes that the invariant does not see *)
   Definition same_core (w w' : world) : Prop :=
     c_s (w_c w') = c_s (w_c w) /\ c_psize (w_c w') = c_psize (w_c w) /\ c_at (w_c w') = c_at (w_c w) /\
     c_off_content (w_c w') = c_off_content (w_c w) /\ c_disc (w_c w') = c_disc (w_c w) /\
     c_seq (w_c w') = c_seq (w_c w) /\ c_open (w_c w') = c_open (w_c w) /\
     c_saved (w_c w') = c_saved (w_c w) /\ w_pcargs w' = w_pcargs w /\
-    obs (w_log w') = obs (w_log w) /\ (w_or w' = w_or w \/ w_or w' = tl (w_or w)).
+    obs (w_log w') = obs (w_log w) /\ (or_ok (w_or w) -> or_ok (w_or w')).
 
   Lemma or_ok_tl o : or_ok o -> or_ok (tl o).
   Proof. destruct o; [auto|]. intros H. inversion H; auto. Qed.
@@ -161,16 +171,20 @@ Section Hist.
     intros p Hp Hnh. rewrite Hout by auto. apply Hs. exact Hp.
   Qed.
 
+  Lemma same_core_refl w : same_core w w.
+  Proof. unfold same_core. repeat split; auto. Qed.
+  Lemma same_core_trans w1 w2 w3 : same_core w1 w2 -> same_core w2 w3 -> same_core w1 w3.
+  Proof. unfold same_core. intuition congruence. Qed.
+
   Lemma HI_core w w' K cur : same_core w w' -> HI w K cur -> HI w' K cur.
   Proof.
     intros (A1 & A2 & A3 & A4 & A5 & A6 & A7 & A8 & A9 & A10 & A11)
            (H1 & H2 & H3 & H4 & H5 & H6 & H7 & H8 & H9 & H10 & H11).
     unfold HI, len_ok. rewrite A1, A2, A3, A4, A5, A6, A7, A9, A10.
     repeat split; auto.
-    - destruct A11 as [-> | ->]; [exact H5|apply or_ok_tl; exact H5].
-    - destruct (c_open (w_c w)); [|exact H11].
-      destruct H11 as (tsb & hs & X & Y). exists tsb, hs.
-      split; [|exact Y].
-      eapply hdr_ctx_ok_core; [..|exact X]; auto.
+    destruct (c_open (w_c w)); [|exact H11].
+    destruct H11 as (tsb & hs & X & Y). exists tsb, hs.
+    split; [|exact Y].
+    eapply hdr_ctx_ok_core; [..|exact X]; auto.
   Qed.
 End Hist.
